@@ -29,6 +29,11 @@ pub struct Scn {
     pub wscript: Script,
     pub rscript: Script,
     pub ops_seed: u64,
+    /// 0: none. 1: between the owner's and the peer's construction the same thread builds a context
+    /// of twice the ring degree over the same primes. 2: that larger context is built before the
+    /// owner's, and the peer's context is built on a fresh thread. (Whatever a context derives from
+    /// its parameters must not depend on which other contexts the thread has built.)
+    pub decoy: u64,
 }
 
 impl Scn {
@@ -40,6 +45,7 @@ impl Scn {
             "write_script": self.wscript.to_json(),
             "read_script": self.rscript.to_json(),
             "ops_seed": self.ops_seed,
+            "decoy": self.decoy,
         })
     }
     pub fn from_json(v: &Value) -> Option<Scn> {
@@ -50,6 +56,7 @@ impl Scn {
             wscript: Script::from_json(&v["write_script"])?,
             rscript: Script::from_json(&v["read_script"])?,
             ops_seed: v["ops_seed"].as_u64()?,
+            decoy: v["decoy"].as_u64().unwrap_or(0),
         })
     }
 }
@@ -118,6 +125,12 @@ pub fn run_scenario(scn: &Scn) -> Res {
 }
 
 fn run_inner(scn: &Scn, res: &mut Res) -> Result<(), String> {
+    // ---- (decoy: a context of twice the degree over the same primes, on this thread)
+    let decoy_spec = ParamSpec { n: scn.spec.n * 2, ..scn.spec.clone() };
+    if scn.decoy == 2 {
+        let _ = catch_res(|| gen::build_world(&decoy_spec));
+        res.count("probe.decoy_context_before_owner", 1);
+    }
     // ---- owner node A
     let a = gen::build_world(&scn.spec)?;
     let mut stream_objs: Vec<Obj> = vec![Obj::Params(a.parms.clone())];
@@ -190,7 +203,18 @@ fn run_inner(scn: &Scn, res: &mut Res) -> Result<(), String> {
         res.bad("EncryptionParameters", "restored-differs", d);
         return Ok(());
     }
-    let ctx_b = match catch_res(|| HeContext::new(parms_b, scn.spec.expand_chain, SecurityLevel::None)) {
+    if scn.decoy == 1 {
+        let _ = catch_res(|| gen::build_world(&decoy_spec));
+        res.count("probe.decoy_context_between_owner_and_peer", 1);
+    }
+    let expand = scn.spec.expand_chain;
+    let built = if scn.decoy == 2 {
+        // the peer is another process in reality: at least give it another thread
+        std::thread::scope(|sc| sc.spawn(|| catch_res(|| HeContext::new(parms_b, expand, SecurityLevel::None))).join()).unwrap_or_else(|_| Err("peer thread died".into()))
+    } else {
+        catch_res(|| HeContext::new(parms_b, expand, SecurityLevel::None))
+    };
+    let ctx_b = match built {
         Ok(c) if c.parameters_set() => c,
         Ok(_) => {
             res.bad("EncryptionParameters", "peer-context-invalid", "context built from the received parameters is not valid".into());
@@ -550,7 +574,18 @@ fn gen_scn(rng: &mut Prng, run_seed: u64, i: usize) -> Option<Scn> {
     if rng.coin() {
         opts.min_primes = 2;
     }
-    let spec = gen::draw_spec(rng, &opts)?;
+    // one deployment in six comes with a decoy context (see Scn::decoy): the primes are then drawn
+    // for twice the ring degree, so that they suit both degrees
+    let decoy = if !big && rng.chance(1, 6) { rng.range(1, 2) as u64 } else { 0 };
+    let spec = if decoy != 0 {
+        let mut o2 = opts.clone();
+        o2.ns = opts.ns.iter().map(|n| n * 2).collect();
+        let mut sp = gen::draw_spec(rng, &o2)?;
+        sp.n /= 2;
+        sp
+    } else {
+        gen::draw_spec(rng, &opts)?
+    };
     let count = rng.range(1, 6);
     let mut objects = Vec::new();
     const BIG_KINDS: &[&str] = &["plain", "sk", "ct", "ctfull", "ctterms", "pk", "poly", "plain1d", "plain2d", "cipher1d", "params", "vec", "hugevec", "hugeplain"];
@@ -569,6 +604,7 @@ fn gen_scn(rng: &mut Prng, run_seed: u64, i: usize) -> Option<Scn> {
         wscript: transport_script(rng),
         rscript: transport_script(rng),
         ops_seed: prng::mix(run_seed, 0xC14, 2),
+        decoy,
     })
 }
 
